@@ -271,24 +271,41 @@ Definition run_ids_legacy (h : list dsm) : outcome (list (list (list N))) :=
 Definition ref_ids (k : ckey) (h : list dsm) : list (list (list N)) :=
   ids_of (snd (srun None (hist_key k (number_from 1 h)))).
 
+(* Which of several arrivals of one and the same segment value ends up in a
+   delivery is not something C10 speaks about: traces are compared after
+   projecting each identity (arrival position, from 1) to the index of the
+   segment value in the case's table (from 1; 0 = nil slot). *)
+Definition proj_id (ixs : list nat) (id : N) : N :=
+  if id =? 0 then 0 else
+  match nth_error ixs (N.to_nat (id - 1)) with Some i => N.of_nat (S i) | None => 99999999 end.
+Definition proj_trace (ixs : list nat) (t : list (list (list N))) : list (list (list N)) :=
+  map (map (map (proj_id ixs))) t.
+Definition proj_otrace (ixs : list nat) (t : outcome (list (list (list N)))) : outcome (list (list (list N))) :=
+  match t with Ok x => Ok (proj_trace ixs x) | Err e => Err e | Panic => Panic end.
+
 (* case: the model reproduces the callback trace the implementation produced
-   on history [pick table ixs] *)
-Definition chk_combine (table : list dsm) (ixs : list nat) (expected : outcome (list (list (list N)))) : bool :=
+   on history [pick table ixs]; [proj] gives, per arrival, the table index
+   identities are projected to (the first entry of the same segment class:
+   same addresses, reference, total and sequence number); [expected] is
+   already projected *)
+Definition chk_combine_proj (table : list dsm) (ixs proj : list nat) (expected : outcome (list (list (list N)))) : bool :=
   match pick table ixs with
-  | Some h => beq_otrace (run_ids h) expected
+  | Some h => beq_otrace (proj_otrace proj (run_ids h)) expected
   | None => false
   end.
+Definition chk_combine (table : list dsm) (ixs : list nat) (expected : outcome (list (list (list N)))) : bool :=
+  chk_combine_proj table ixs ixs expected.
 (* case: the reference on the sub-history of the key of table entry [ki]
    reproduces the implementation's callbacks at the steps of that key *)
-Definition chk_reference (table : list dsm) (ixs : list nat) (ki : nat) (expected : list (list (list N))) : bool :=
+Definition chk_reference (table : list dsm) (ixs proj : list nat) (ki : nat) (expected : list (list (list N))) : bool :=
   match pick table ixs, nth_error table ki with
   | Some h, Some q =>
     match seg_key q with
-    | Some k => beq_trace (ref_ids k h) expected
+    | Some k => beq_trace (proj_trace proj (ref_ids k h)) expected
     | None => false
     end
   | _, _ => false
   end.
-(* many histories over one table *)
+(* many histories over one table of pairwise different segment classes *)
 Definition chk_combine_all (table : list dsm) (cases : list (list nat * list (list (list N)))) : bool :=
   forallb (fun c => chk_combine table (fst c) (Ok (snd c))) cases.
